@@ -510,35 +510,8 @@ func runC05(r *h.Run) {
 	}
 	r.Rule = "(a) for every trie of the C01 space (all 16 option combinations, encoders I32/String16/VarEnc, run patterns, nil values) and every query of Q: Get, GetID, RangeGet, Search, GetI32 (where applicable), scans from every start (complete modes), Stat and String are identical on the fresh, the Unmarshal-loaded and the proto-loaded instance (result-to-result, false positives included); (b) on every fresh trie: the same input built 4 times gives identical bytes, len(Marshal) = proto.Size = len(proto.Marshal), Marshal(Unmarshal(Marshal(t))) = Marshal(t) (short-table scaffolds with tied bitmap frequencies included); (a'/b') the same for instances loaded from every historical layout (K(U21,2), scaffolds, sweep offsets): their Marshal output loads through both load forms, answers identically (lookups, scans, Stat, String) and re-marshals to the same bytes; (c) explicit-state exploration of load/reset histories: every sequence of length <= 3 over {Unmarshal(s), proto.Unmarshal(s)} x 14 streams, Reset and ReadEverything (every read API once, incl. Marshal and proto.Size, so that cached read state is exposed to the next load) (empty; default, complete, complete without values, inner-only, leaf-only, de-duplicated small tries; one with 257-bit and short nodes; legacy 0.5.3, 0.5.9, 0.5.10-innpref, 0.5.10-allpref; a truncated and a bad-version stream) and Reset, from a never-used and from a built instance; plus every history [load s1, ONE read, load s2, ONE read] over the valid streams x both load forms x 8 queries x {Get, RangeGet, Search, GetI32}, whose last read is the first read after the reload; differential oracle: the observation vector (answers to Q, scans, Stat, String, Marshal bytes) equals that of a fresh instance that only loaded the last stream, or the empty observation after Reset. (d) build histories: every sequence of 2..3 builds over 11 inputs (tiny / small / short-table tries in filter, default and complete mode, the empty list, refused unsorted lists incl. one refused late, refused over-long runs at the root and deep in the trie, the same deep list accepted with InnerPrefix), run on one OS thread with the collector off: the last build's outcome (error class or marshaled bytes) equals the outcome of the same build run first. (e) option-cell histories: the caller overwrites Booleans it owns (obtained from trie.Bool, or the cells of an Opt after its build returned) in every prefix of 1..2 such steps, then builds with each of the 81 option forms made afresh from trie.Bool: the outcome equals that of the same build run first. A state is a distinct (marshaled bytes, options, encoder) resp. a distinct observation vector"
 	r.Assumptions = append([]string{"the state after a rejected load is decided by C07, not here", "a deep-digest difference without an observable difference is logged, not raised"}, commonAssumptions...)
-	runTriePass(r, buildPhases(r, p), oracleC05, nil)
-
-	// (a')+(b') on tries loaded from the historical layouts: what such an instance
-	// marshals loads again, answers identically and re-marshals to the same bytes
-	legacyLoadedPhase(r, "C05", 2, func(w *h.Worker, l *legacyLayout, b *h.Built, u *inputSpec, st *trie.SlimTrie) *h.Viol {
-		m1, err := st.Marshal()
-		if err != nil {
-			return &h.Viol{Sig: "marshal-error", Msg: "Marshal of a legacy-loaded instance failed: " + err.Error()}
-		}
-		if pm, err := proto.Marshal(st); err != nil || !bytes.Equal(pm, m1) || proto.Size(st) != len(m1) {
-			return &h.Viol{Sig: "marshal-size", Msg: fmt.Sprintf("legacy-loaded instance: len(Marshal)=%d, proto.Size=%d, proto.Marshal equal=%v err=%v", len(m1), proto.Size(st), bytes.Equal(pm, m1), err)}
-		}
-		for _, viaProto := range []bool{false, true} {
-			st2, err, p := loadLegacy(m1, viaProto)
-			w.Trans++
-			if err != nil || p != nil {
-				return &h.Viol{Sig: "load-error", Msg: fmt.Sprintf("the bytes a legacy-loaded instance marshals do not load: %v %v", err, p)}
-			}
-			if v := oracleC05(w, b, "re-marshaled", st2, u); v != nil {
-				return v
-			}
-			m2, _ := st2.Marshal()
-			if !bytes.Equal(m1, m2) {
-				return &h.Viol{Sig: "remarshal-differs", Msg: fmt.Sprintf("Marshal(Unmarshal(Marshal(t))) differs from Marshal(t) for a legacy-loaded t (lengths %d, %d, first difference at %d)", len(m1), len(m2), firstDiff(m1, m2))}
-			}
-		}
-		return nil
-	})
-
+	// the history explorations are cheap and decide what no other check decides:
+	// they run first, the shared trie enumeration (a)+(b) last
 	// (d) build histories
 	runC05BuildHistories(r)
 	// (e) option-cell histories
@@ -645,6 +618,35 @@ func runC05(r *h.Run) {
 			}
 			w.Sample(map[string]interface{}{"start": u.start, "history": names})
 		}
+	})
+
+	runTriePass(r, buildPhases(r, p), oracleC05, nil)
+
+	// (a')+(b') on tries loaded from the historical layouts: what such an instance
+	// marshals loads again, answers identically and re-marshals to the same bytes
+	legacyLoadedPhase(r, "C05", 2, func(w *h.Worker, l *legacyLayout, b *h.Built, u *inputSpec, st *trie.SlimTrie) *h.Viol {
+		m1, err := st.Marshal()
+		if err != nil {
+			return &h.Viol{Sig: "marshal-error", Msg: "Marshal of a legacy-loaded instance failed: " + err.Error()}
+		}
+		if pm, err := proto.Marshal(st); err != nil || !bytes.Equal(pm, m1) || proto.Size(st) != len(m1) {
+			return &h.Viol{Sig: "marshal-size", Msg: fmt.Sprintf("legacy-loaded instance: len(Marshal)=%d, proto.Size=%d, proto.Marshal equal=%v err=%v", len(m1), proto.Size(st), bytes.Equal(pm, m1), err)}
+		}
+		for _, viaProto := range []bool{false, true} {
+			st2, err, p := loadLegacy(m1, viaProto)
+			w.Trans++
+			if err != nil || p != nil {
+				return &h.Viol{Sig: "load-error", Msg: fmt.Sprintf("the bytes a legacy-loaded instance marshals do not load: %v %v", err, p)}
+			}
+			if v := oracleC05(w, b, "re-marshaled", st2, u); v != nil {
+				return v
+			}
+			m2, _ := st2.Marshal()
+			if !bytes.Equal(m1, m2) {
+				return &h.Viol{Sig: "remarshal-differs", Msg: fmt.Sprintf("Marshal(Unmarshal(Marshal(t))) differs from Marshal(t) for a legacy-loaded t (lengths %d, %d, first difference at %d)", len(m1), len(m2), firstDiff(m1, m2))}
+			}
+		}
+		return nil
 	})
 }
 
